@@ -31,10 +31,10 @@ Put(s, h, o) == [x \in (DOMAIN s) \cup {h} |-> IF x = h THEN o ELSE s[x]]
 Expect(s, ev) ==
   CASE ev.op = "sm3.new" ->
          LET o == Fresh IN
-         [st |-> Put(s, ev.h, o), ok |-> ev.panic = "" /\ ProjOK(o, ev), why |-> "new: state"]
+         [st |-> Put(s, ev.h, o), ok |-> ev.panic = "", why |-> "new: panic"]
     [] ev.op = "sm3.reset" ->
          LET o == Fresh IN
-         [st |-> Put(s, ev.h, o), ok |-> ev.panic = "" /\ ProjOK(o, ev), why |-> "reset: state"]
+         [st |-> Put(s, ev.h, o), ok |-> ev.panic = "", why |-> "reset: panic"]
     [] ev.op = "sm3.inject" ->
          \* state injection (verif hook): the object is placed at an arbitrary (v, buffer, length);
          \* from here on only the machine view is available (written = "unknown history")
@@ -47,7 +47,11 @@ Expect(s, ev) ==
              okRet == ev.panic = "" /\ ev.n = Len(ev.data) /\ ev.err = ""
              okIn  == ev.data_after = ev.data
              okSt  == ProjOK(o2, ev)
-         IN [st |-> Put(s, ev.h, o2), ok |-> okRet /\ okIn /\ okSt,
+         \* The projected internal state (okSt) is compared only for objects whose state was INJECTED through the hook
+         \* (there it is the only view there is).  Otherwise the property is about digests: an implementation that
+         \* buffers differently (compresses a full block lazily, say) is not wrong, and a state that really is
+         \* corrupted shows in the next Sum of the history.
+         IN [st |-> Put(s, ev.h, o2), ok |-> okRet /\ okIn /\ (o.injected => okSt),
              why |-> IF ~okRet THEN "write: return values (n, err)"
                      ELSE IF ~okIn THEN "write: input modified" ELSE "write: state"]
     [] ev.op = "sm3.sum" ->
@@ -57,7 +61,9 @@ Expect(s, ev) ==
              okMach == H!Sum(o.m) = dig          \* implementation-shaped machine agrees
              okSt == ProjOK(o, ev)               \* Sum leaves the hash able to continue
              okArr == (ev.spare >= 32 /\ Len(ev["in"]) + ev.spare > 0) => ev.same_array
-         IN [st |-> s, ok |-> okOut /\ okMach /\ okSt /\ okArr,
+         \* okArr (the result re-uses in's array when it has room) is what append does, but the property asks for the
+         \* appended VALUE only: recorded, not demanded.  okSt: see sm3.write.
+         IN [st |-> s, ok |-> okOut /\ okMach /\ (o.injected => okSt),
              why |-> IF ~okOut THEN "sum: digest"
                      ELSE IF ~okMach THEN "sum: machine/definition mismatch (spec)"
                      ELSE IF ~okSt THEN "sum: state changed" ELSE "sum: append contract"]
